@@ -15,8 +15,8 @@ from props import e2e
 
 ID = 'C01'
 HARNESS = 'solve'
-COQ_IMPORTS = 'From VRP Require Import Base.Tac Model.Core Spec.Valid.'
-MODEL_TARGETS = ['theories/Spec/Valid.vo']
+COQ_IMPORTS = 'From VRP Require Model.Routing. From VRP Require Import Base.Tac Model.Core Spec.Valid Spec.ValidTD Spec.Relations.'
+MODEL_TARGETS = ['theories/Spec/Valid.vo', 'theories/Spec/ValidTD.vo', 'theories/Spec/Relations.vo']
 MODEL_NEEDS_IMPL = True
 SHARD = 24
 SIZES = {'quick': 420, 'thorough': 4200, 'search': 1800}
@@ -26,20 +26,29 @@ RULE = ('cases: generated pragmatic problems (3-10 jobs: deliveries, pickups, se
         'groups, matrix errorCodes (asymmetric / symmetric / a location that cannot be left or entered), 2-3 capacity dimensions, skills '
         'oneOf / noneOf, vehicle reloads (small capacities + extra deliveries and shipments: several trips, shipments carried across a '
         'reload), task order (1-3 on about half of the tasks: a hard rule with the default objectives), job value (switches the '
-        'maximize-value objective on); '
+        'maximize-value objective on), optional vehicle breaks (time window or offset interval, places with / without location, 1-2 per shift); '
         'metric and non-metric integer matrices incl. the "cheap chain, expensive shortcut" shape) x 3 configurations each '
         '(max_generations 0-20, Parallelism none/(1,1)/(2,2), outer threads 1-2, quota firing after 0-89 polls or never). '
         'non-trivial = distinct (problem, document) whose document has a tour with >= 2 jobs or a binding constraint (an unassigned job).')
 TRUSTED = ['rendering of the JSON documents into the reduced Coq types and the rebuilding of Core activities from a reported tour '
            '(tools/props/e2e.py, Spec/Valid.v tour_acts / match_act): an activity is attributed to the job task place by location, duration and window',
            'real thread interleavings are sampled (three layouts), not enumerated']
-ASSUMPTIONS = ['problem fragment without breaks, recharges, relations (locks), clustering, reload resources, objectives override: those '
-               'constraints are not exercised by this check', 'time-independent routing',
+ASSUMPTIONS = ['problem fragment without required breaks, recharges, clustering, reload resources, objectives override (optional breaks are in: window '
+               'of the break via the rebuilt activity, placement FBreakPlace; relations are in for a sixth of the cases: derived from a '
+               'solution of the same problem on metric matrices without tour limits, pinning rules of Spec/Relations.v): those '
+               'constraints are not exercised by this check',
+               'general routing data (several profiles, integer scale, time-dependent matrices with integer slopes) are judged by '
+               'Spec/ValidTD.v over the C16 provider model; the step theorems are about time-independent routing',
                'groups: checked rule = all ASSIGNED jobs of a group are in one tour (the documentation\'s "or left unassigned" is read per job)']
 
 
 def generate(rng, tier, n):
-    return e2e.gen_cases(rng, n, per_problem=3)
+    # about a sixth of the cases carry `plan.relations` derived from a solution of the same problem (two-phase generation:
+    # solve, derive relations from the returned tours, re-solve with them); their own forked stream: the other cases are the
+    # ones the generator produced before relations existed
+    nrel = n // 6
+    cases = e2e.gen_cases(rng, n - nrel, per_problem=3, allow=('tdm',))
+    return cases + e2e.gen_relation_cases(rng.fork('relations'), nrel)
 
 
 def _sol(impl):
@@ -79,10 +88,13 @@ def model_term(c, impl):
     if s is None or e2e.unsupported(c, s):
         return '(@nil violation, @nil (list violation))'
     ids = e2e.Ids(c)
-    cons = ['(feasible_viols P %s ++ xfeasible_viols P %s)' % (g, g)
+    cons = ['(feasible_viols_x R P %s ++ xfeasible_viols P %s)' % (g, g)
             for g in [e2e.g_solution(c, d, ids) for _, d in constructed_docs(c, impl)]]
-    return '(let P := %s in let S := %s in (precond_viol P ++ feasible_viols P S ++ xfeasible_viols P S, [%s]))' % (
-        e2e.g_problem(c, ids), e2e.g_solution(c, s, ids), '; '.join(cons))
+    # R = None: the classic fragment, feasible_viols_x None = Valid.feasible_viols; otherwise Spec/ValidTD.v (several profiles,
+    # scale, time-dependent matrices: every leg evaluated at its departure time by the C16 provider model)
+    return ('(let R := %s in let P := %s in let S := %s in '
+            '(precond_viol P ++ feasible_viols_x R P S ++ xfeasible_viols P S ++ rel_viols %s S, [%s]))') % (
+        e2e.g_routing(c, ids), e2e.g_problem(c, ids), e2e.g_solution(c, s, ids), e2e.g_relations(c, ids), '; '.join(cons))
 
 
 def compare(c, impl, model):
@@ -95,7 +107,9 @@ CLASS = {'FNoTour': 'tour-not-rebuildable', 'FInfeasible': 'tour-infeasible', 'F
          'FShiftStart': 'departure-outside-shift-start', 'FEndLocation': 'wrong-end-location',
          'FCompatibility': 'compatibility-classes-mixed-in-tour', 'FGroup': 'group-split-over-tours',
          'FUnreachable': 'unreachable-leg', 'FCapacityDim': 'capacity-exceeded-in-extra-dimension',
-         'FOrder': 'task-order-violated'}
+         'FOrder': 'task-order-violated', 'FBreakPlace': 'break-not-at-a-place-of-a-break-of-the-shift',
+         'FRelVehicle': 'relation-job-on-another-vehicle-shift-or-not-served', 'FRelOrder': 'relation-order-broken',
+         'FRelContiguous': 'strict-relation-not-contiguous', 'FRelAnchor': 'strict-relation-not-anchored'}
 
 
 def oracle(c, impl):
@@ -134,10 +148,21 @@ def oracle_model(c, impl, model):
         # no Coq verdict on the construction documents at hand (caller evaluated valid_b on the returned one only): python twin
         cons = [[('FUnreachable',) + x for x in e2e.unreachable_legs(c, d) if not reload_bridges(c, d, x[0], x[1])] for _, d in docs]
         cons_bad = any(cons)
+    for t in e2e.coq_viols(main, 'P'):
+        if t[0] == 'PRouting':
+            # the generator promises integer routing values at every departure time that can occur: this is an alarm about
+            # the generated DATA (or the provider model), never silently skipped
+            out.append({'class': 'routing-value-missing-or-not-integer', 'what': 'PRouting %s: general routing data outside the exact fragment' % list(t[1:])})
+    mats = c['matrices']
+    # time-dependent data: the generated slopes are in {-1, 0, 1}, so arrival times are monotone in the departure (FIFO) and an
+    # interpolation between metric matrices is metric: a removal can only hurt when SOME matrix violates the triangle inequality
+    nonmetric_d = any(violates_triangle(x['distances']) for x in mats)
+    nonmetric_t = any(violates_triangle(x['travelTimes']) for x in mats)
     for t in e2e.coq_viols(main, 'F'):
         name, arg = t[0], (t[1] if len(t) > 1 else None)
         cls = CLASS.get(name, name)
-        tour = s['tours'][arg] if isinstance(arg, int) and 0 <= arg < len(s['tours']) else None
+        tour = s['tours'][arg] if isinstance(arg, int) and 0 <= arg < len(s['tours']) and not name.startswith('FRel') \
+            and name != 'FGroup' else None
         if tour is not None and not any(a.get('type') not in ('departure', 'arrival') for st in tour['stops'] for a in st['activities']):
             # a tour without any job (root cause shared with C02-F1): every rule evaluated on it is moot
             vt = e2e.vehicle_type_of(c, tour)
@@ -145,9 +170,9 @@ def oracle_model(c, impl, model):
         elif name == 'FShiftStart' and tour is not None and \
                 ((e2e.vehicle_type_of(c, tour) or {}).get('limits') or {}).get('maxDuration') is not None:
             cls = 'departure-outside-shift-start-max-duration-vehicle'
-        elif name == 'FMaxDistance' and violates_triangle(m['distances']):
+        elif name == 'FMaxDistance' and nonmetric_d:
             cls = 'max-distance-exceeded-nonmetric-matrix'
-        elif name in ('FMaxDuration', 'FInfeasible') and violates_triangle(m['travelTimes']):
+        elif name in ('FMaxDuration', 'FInfeasible') and nonmetric_t:
             cls = CLASS[name] + '-nonmetric-matrix'
         elif name == 'FUnreachable' and docs and len(docs) == len(cons) and not cons_bad:
             # every insertion is gated by ReachableConstraint (both legs next to the inserted activity); the pure-construction
@@ -193,11 +218,24 @@ def classify(c, impl):
         labs.append('max_tour_jobs=%d' % max([len(t) for t in tours] + [0]))
     for f in (c.get('meta') or {}).get('features') or []:
         labs.append('feature=' + f)
+    for r in c['problem']['plan'].get('relations') or []:
+        labs.append('relation=' + r['type'] + ('+departure' if r['jobs'][:1] == ['departure'] else '')
+                    + ('+arrival' if r['jobs'][-1:] == ['arrival'] else ''))
+        if len(set(r['jobs'])) < len(r['jobs']):
+            labs.append('relation-with-multi-task-job')
     if s is not None and e2e.unsupported(c, s):
         labs.append('skipped-not-renderable=' + str(e2e.unsupported(c, s))[:40])
     if s is not None:
         for t in s['tours']:
             seq = [(a.get('type'), a.get('jobId')) for st in t['stops'] for a in st['activities']]
+            if any(k == 'break' for k, _ in seq):
+                labs.append('tour-with-break')
+                vt = e2e.vehicle_type_of(c, t)
+                brs = e2e.optional_breaks(vt['shifts'][t.get('shiftIndex', 0)]) if vt else []
+                if any(e2e.break_is_offset(b) for b in brs):
+                    labs.append('tour-with-break-on-offset-break-shift')
+                if any(pl.get('location') is None for b in brs for pl in b['places']):
+                    labs.append('tour-with-break-on-shift-with-locationless-break')
             if any(k == 'reload' for k, _ in seq):
                 labs.append('tour-with-reload')
                 ivl, where = 0, {}
